@@ -407,8 +407,10 @@ def args_to_key(base, args, kwargs, typed, ignore):
         kwargs = {key: val for key, val in kwargs.items() if key not in ignore}
         sorted_items = sorted(kwargs.items())
 
+        # Keep each keyword item together so that it cannot be mistaken for
+        # positional arguments that follow a None.
         for item in sorted_items:
-            key += item
+            key += (item,)
 
     if typed:
         key += tuple(type(arg) for arg in args)
